@@ -111,9 +111,24 @@ package reconciledloader
 //@   modifies alloc, remotedLinkedItem.next, remotedLinkedItem.remoteItem, remoteQueue.head, remoteQueue.tail, remoteQueue.dataSize, allmaps("map[cid.Cid]struct{}")
 //@   ensures linv(rl)
 
-//@ pred wf(rl *ReconciledLoader) := rl != nil && rl.signal != nil && rl.lock != nil && rl.lsys != nil
+//@ -- (the local store the loader was given can be read and written: environment assumption made by NewReconciledLoader's precondition)
+//@ pred wf(rl *ReconciledLoader) := rl != nil && rl.signal != nil && rl.lock != nil && rl.lsys != nil && rl.lsys.StorageWriteOpener != nil && rl.lsys.StorageReadOpener != nil
 //@ pred linkCid(link datamodel.Link) := cast(link, cidlink.Link).Cid
 //@ pred isCidLink(link datamodel.Link) := link != nil && dyntype(link) == typetag("cidlink.Link")
+
+//@ ghost nRemoteLoads int   -- history: remote items taken off the queue by loads (not by the replay)
+//@ ghost nLocalLoads int    -- history: reads of the local store
+//@ ghost nCommits int       -- history: blocks committed to the local store
+//@ -- the user's store: when opening for write succeeds it hands back a writer and a committer (go-ipld-prime's
+//@ -- documented contract for BlockWriteOpener; environment assumption)
+//@ func github.com/ipld/go-ipld-prime/linking.LinkSystem$StorageWriteOpener
+//@   assumed
+//@   modifies alloc
+//@   ensures result2 == nil ==> result0 != nil && result1 != nil
+//@ func ReconciledLoader.loadRemote$committer
+//@   assumed
+//@   modifies nCommits
+//@   ghost nCommits := old(nCommits) + ite(result == nil, 1, 0)
 
 //@ -- C01: the only bytes the loader ever writes to the local store, and the only remote bytes it ever hands to the
 //@ -- traversal, hash to the link the traversal asked for - whatever the queue holds (the queue is filled from the
@@ -121,13 +136,16 @@ package reconciledloader
 //@ func ReconciledLoader.loadRemote
 //@   lenient
 //@   requires linv(rl) && rl.remoteQueue.head != nil && isCidLink(link)
-//@   modifies alloc, remoteQueue.head, remoteQueue.lastConsumed, remoteQueue.dataSize, remotedLinkedItem.remoteItem, pathTracker.lastUnfollowedRemotePath
+//@   ghost nRemoteLoads := old(nRemoteLoads) + 1
+//@   modifies nCommits, alloc, remoteQueue.head, remoteQueue.lastConsumed, remoteQueue.dataSize, remotedLinkedItem.remoteItem, pathTracker.lastUnfollowedRemotePath
 //@   callsite settableWriter.SetBytes: assert isSumOf(linkCid(link), arg0)
 //@   callsite Writer.Write: assert isSumOf(linkCid(link), arg0)
 //@   callsite $committer: assert arg0 == link
 //@   ensures linv(rl)
 //@   ensures len(result0) > 0 ==> result1 == nil && isSumOf(linkCid(link), result0)
 //@   ensures old(rl.remoteQueue.head.link) != linkCid(link) ==> len(result0) == 0 && result1 != nil
+//@   -- C02: every block obtained from the responder is stored locally before it is used
+//@   ensures len(result0) > 0 ==> nCommits == old(nCommits) + 1
 
 //@ -- C02: "load locally while below a link the remote did not follow". last = the path of the last link the remote
 //@ -- reported without walking below it (empty: none). A new load is still inside that unfollowed subtree exactly when
@@ -181,6 +199,7 @@ package reconciledloader
 //@   lenient
 //@   requires wf(rl)
 //@   modifies alloc
+//@   ghost nLocalLoads := old(nLocalLoads) + 1
 //@   callsite $StorageReadOpener: assert arg1 == link
 //@   ensures result.Local
 
@@ -190,11 +209,19 @@ package reconciledloader
 //@ -- are returned, and only a remote item without bytes falls back to the local store.
 //@ func ReconciledLoader.blockReadOpener
 //@   requires linv(rl) && isCidLink(link)
-//@   modifies alloc, vfail, remoteQueue.head, remoteQueue.tail, remoteQueue.dataSize, remoteQueue.lastConsumed, remotedLinkedItem.next, remotedLinkedItem.remoteItem, ReconciledLoader.open, ReconciledLoader.verifier, traversalrecord.Verifier.stack, pathTracker.lastUnfollowedRemotePath
+//@   modifies nRemoteLoads, nLocalLoads, nCommits, alloc, vfail, remoteQueue.head, remoteQueue.tail, remoteQueue.dataSize, remoteQueue.lastConsumed, remotedLinkedItem.next, remotedLinkedItem.remoteItem, ReconciledLoader.open, ReconciledLoader.verifier, traversalrecord.Verifier.stack, pathTracker.lastUnfollowedRemotePath
 //@   ensures linv(rl)
 //@   ensures result1.Err == nil && !result1.Local ==> isSumOf(linkCid(link), result1.Data)
 //@   ensures vfail != old(vfail) ==> result1.Err != nil
 //@   ensures !result0 && result1.Err == nil ==> result1.Local
+//@   -- C02 decision table, in terms of what was touched: at most one remote item and at most one local read per load;
+//@   -- a load that did not use remote data (offline, or a failed replay) takes nothing off the remote queue; bytes that
+//@   -- came with the remote item are returned after being stored, without reading the local store; the local store is
+//@   -- read exactly when no remote bytes were returned and no error stopped the load earlier
+//@   ensures nRemoteLoads <= old(nRemoteLoads) + 1 && nLocalLoads <= old(nLocalLoads) + 1
+//@   ensures !result0 ==> nRemoteLoads == old(nRemoteLoads)
+//@   ensures result1.Err == nil && !result1.Local ==> nRemoteLoads == old(nRemoteLoads) + 1 && nLocalLoads == old(nLocalLoads) && nCommits == old(nCommits) + 1
+//@   ensures result1.Local ==> nLocalLoads == old(nLocalLoads) + 1 || vfail != old(vfail)
 
 //@ func loadAttempt.empty
 //@   modifies nothing
@@ -203,7 +230,7 @@ package reconciledloader
 //@ func ReconciledLoader.BlockReadOpener
 //@   objinv linv(rl)
 //@   requires isCidLink(link)
-//@   modifies alloc, vfail, recNodes, remoteQueue.head, remoteQueue.tail, remoteQueue.dataSize, remoteQueue.lastConsumed, remotedLinkedItem.next, remotedLinkedItem.remoteItem, ReconciledLoader.open, ReconciledLoader.verifier, ReconciledLoader.mostRecentLoadAttempt, traversalrecord.Verifier.stack, pathTracker.lastUnfollowedRemotePath, traversalrecord.TraversalRecord.link, traversalrecord.TraversalRecord.successful, traversalrecord.TraversalRecord.children, traversalrecord.TraversalRecord.childSegments, traversalrecord.traversalLink.segment, traversalrecord.traversalLink.TraversalRecord, allmaps("map[datamodel.PathSegment]int")
+//@   modifies nRemoteLoads, nLocalLoads, nCommits, alloc, vfail, recNodes, remoteQueue.head, remoteQueue.tail, remoteQueue.dataSize, remoteQueue.lastConsumed, remotedLinkedItem.next, remotedLinkedItem.remoteItem, ReconciledLoader.open, ReconciledLoader.verifier, ReconciledLoader.mostRecentLoadAttempt, traversalrecord.Verifier.stack, pathTracker.lastUnfollowedRemotePath, traversalrecord.TraversalRecord.link, traversalrecord.TraversalRecord.successful, traversalrecord.TraversalRecord.children, traversalrecord.TraversalRecord.childSegments, traversalrecord.traversalLink.segment, traversalrecord.traversalLink.TraversalRecord, allmaps("map[datamodel.PathSegment]int")
 //@   ensures result.Err == nil && !result.Local ==> isSumOf(linkCid(link), result.Data)
 //@   ensures vfail != old(vfail) ==> result.Err != nil
 //@   ensures rl.mostRecentLoadAttempt.link == link && rl.mostRecentLoadAttempt.successful == (result.Err == nil)
@@ -224,12 +251,12 @@ package reconciledloader
 //@ -- C06: a retry puts back at most the one item the failed load had consumed and then loads the same link again
 //@ func ReconciledLoader.RetryLastLoad
 //@   objinv linv(rl)
-//@   modifies alloc, vfail, recNodes, remoteQueue.head, remoteQueue.tail, remoteQueue.dataSize, remoteQueue.lastConsumed, remotedLinkedItem.next, remotedLinkedItem.remoteItem, ReconciledLoader.open, ReconciledLoader.verifier, ReconciledLoader.mostRecentLoadAttempt, traversalrecord.Verifier.stack, pathTracker.lastUnfollowedRemotePath, traversalrecord.TraversalRecord.link, traversalrecord.TraversalRecord.successful, traversalrecord.TraversalRecord.children, traversalrecord.TraversalRecord.childSegments, traversalrecord.traversalLink.segment, traversalrecord.traversalLink.TraversalRecord, allmaps("map[datamodel.PathSegment]int")
+//@   modifies nRemoteLoads, nLocalLoads, nCommits, alloc, vfail, recNodes, remoteQueue.head, remoteQueue.tail, remoteQueue.dataSize, remoteQueue.lastConsumed, remotedLinkedItem.next, remotedLinkedItem.remoteItem, ReconciledLoader.open, ReconciledLoader.verifier, ReconciledLoader.mostRecentLoadAttempt, traversalrecord.Verifier.stack, pathTracker.lastUnfollowedRemotePath, traversalrecord.TraversalRecord.link, traversalrecord.TraversalRecord.successful, traversalrecord.TraversalRecord.children, traversalrecord.TraversalRecord.childSegments, traversalrecord.traversalLink.segment, traversalrecord.traversalLink.TraversalRecord, allmaps("map[datamodel.PathSegment]int")
 //@   ensures old(rl.mostRecentLoadAttempt.link) == nil ==> result.Err != nil
 //@   ensures old(rl.mostRecentLoadAttempt.link) != nil && result.Err == nil && !result.Local ==> isSumOf(linkCid(old(rl.mostRecentLoadAttempt.link)), result.Data)
 //@   ensures vfail != old(vfail) ==> result.Err != nil
 
 //@ func NewReconciledLoader
-//@   requires recOK() && allGood() && localStore != nil
+//@   requires recOK() && allGood() && localStore != nil && localStore.StorageWriteOpener != nil && localStore.StorageReadOpener != nil
 //@   modifies alloc, recNodes, allmaps("map[datamodel.PathSegment]int")
 //@   ensures linv(result) && fresh(result) && !result.open && result.verifier == nil && result.remoteQueue.head == nil
